@@ -665,6 +665,12 @@ def symbolic_paths(fv: "FuncView", at, exprs, stop=(), limit=6000, opaque_calls=
             else:
                 for nm in CFG.defs_of(node):
                     env[nm] = None
+            # a mutator method called on a local (`x.append(v)`, `x.update(d)`) changes the object as well
+            if isinstance(s, ast.Expr) and isinstance(s.value, ast.Call) and isinstance(s.value.func, ast.Attribute) and s.value.func.attr in MUTATORS \
+                    and isinstance(s.value.func.value, ast.Name) and env.get(s.value.func.value.id) is not None and s.value.func.value.id not in ("self", "cls"):
+                nm_ = s.value.func.value.id
+                if not (isinstance(env[nm_], ast.Call) and isinstance(env[nm_].func, ast.Name) and env[nm_].func.id == "__modified_in_place__"):
+                    env[nm_] = ast.Call(func=ast.Name(id="__modified_in_place__", ctx=ast.Load()), args=[env[nm_]], keywords=[])
             # an in-place store through a local (`x[i] = v`, `x.flat[k] = v`, `x[m] += v`) changes the object the name is bound
             # to: from here on the name no longer stands for its defining expression
             tg_ = s.targets if isinstance(s, ast.Assign) else ([s.target] if isinstance(s, (ast.AugAssign, ast.AnnAssign)) else [])
